@@ -1,9 +1,10 @@
 """C13 driver (runs inside the engine child): parse / evaluate source texts, report raw observations.
 
-case = {id, parse: [src...], mode: "expr" | "prog", evals: [src...]}
+case = {id, parse: [src...], mode: "expr" | "prog" | "stmt", evals: [src...]}
 result = {id, parsed: [obs...], evals: [outcome...]}
   obs (mode expr) = {"o":"tree","t":<spec tree JSON>} | {"o":"syntax","line","col"} | {"o":"host","type","where"}
   obs (mode prog) = {"o":"tree","ast":<canonical JSON text of to_dict()>} | ...
+  obs (mode stmt) = {"o":"tree","t":<statement tree in the record layout of spec/C13.tla>} | ...
 No expectation is computed here; the tree is only re-shaped into the record layout of spec/JsGrammar.tla.
 """
 import json
@@ -63,6 +64,43 @@ def norm(n):
     return node("other", str(ty), [])
 
 
+def norm_stmt(n):
+    """engine statement AST (to_dict) -> the statement tree of spec/C13.tla (section "statement nesting")"""
+    ty = n.get("type") if isinstance(n, dict) else None
+    if ty == "Program":
+        return node("prog", "", [norm_stmt(b) for b in n["body"]])
+    if ty == "BlockStatement":
+        return node("block", "", [norm_stmt(b) for b in n["body"]])
+    if ty == "ExpressionStatement":
+        return node("es", "", [norm(n["expression"])])
+    if ty == "EmptyStatement":
+        return node("empty", "", [])
+    if ty == "VariableDeclaration" and n.get("kind") == "var" and len(n["declarations"]) == 1 and n["declarations"][0].get("init") is not None:
+        d = n["declarations"][0]
+        return node("var", d["id"].get("name", "?"), [norm(d["init"])])
+    if ty == "IfStatement":
+        return node("if", "", [norm(n["test"]), norm_stmt(n["consequent"])] + ([norm_stmt(n["alternate"])] if n.get("alternate") is not None else []))
+    if ty == "WhileStatement":
+        return node("while", "", [norm(n["test"]), norm_stmt(n["body"])])
+    if ty == "DoWhileStatement":
+        return node("do", "", [norm_stmt(n["body"]), norm(n["test"])])
+    if ty == "ForStatement" and all(isinstance(n.get(k), dict) for k in ("init", "test", "update")):
+        return node("for", "", [norm(n["init"]), norm(n["test"]), norm(n["update"]), norm_stmt(n["body"])])
+    if ty == "LabeledStatement":
+        return node("label", n["label"].get("name", "?"), [norm_stmt(n["body"])])
+    if ty == "TryStatement":
+        h, f = n.get("handler"), n.get("finalizer")
+        kids = [norm_stmt(n["block"])]
+        if h is not None:
+            kids += [norm(h["param"]) if isinstance(h.get("param"), dict) else node("other", "param", []), norm_stmt(h["body"])]
+        if f is not None:
+            kids.append(norm_stmt(f))
+        return node("try", ("c" if h is not None else "") + ("f" if f is not None else ""), kids)
+    if ty == "FunctionDeclaration" and not n.get("params"):
+        return node("fun", n["id"].get("name", "?") if isinstance(n.get("id"), dict) else "?", [norm_stmt(n["body"])])
+    return node("other", str(ty), [])
+
+
 def parse_obs(api, src, mode):
     from microjs.parser import Parser
 
@@ -71,6 +109,8 @@ def parse_obs(api, src, mode):
     out = api.run(go, wall=10.0)
     if out["o"] == "value":
         d = out["pv"]
+        if mode == "stmt":
+            return {"o": "tree", "t": norm_stmt(d)}
         if mode == "prog":
             return {"o": "tree", "ast": json.dumps(d, sort_keys=True, default=str)}
         body = d.get("body", [])
